@@ -307,3 +307,17 @@ package internal_planner
 //@ func (*LineFormatterPlanner).Process [C09]
 //@   flag checks=-index,-assert
 //@   at Template).Option$ a-missing-label-renders-empty: len(arg0) == 1 && arg0[0] == "missingkey=zero"
+
+// The same hand-over rule for the other stages that collect what they let through
+// (comparison, line filter, line_format): after a batch is sent, the next one is
+// collected in storage the receiver does not hold - nil or freshly made, never the sent
+// slice cut back to length 0.
+//@ func (*ComparisonPlanner).Process$2 [C09]
+//@   flag checks=-index,-assert
+//@   check handed-over-buffer-is-given-up: len(_entries) == 0 && (isnil(_entries) || !aliases(_entries, old(_entries)))
+//@ func (*LineFilterPlanner).Process$2 [C09]
+//@   flag checks=-index,-assert
+//@   check handed-over-buffer-is-given-up: len(_entries) == 0 && (isnil(_entries) || !aliases(_entries, old(_entries)))
+//@ func (*LineFormatterPlanner).Process$2 [C09]
+//@   flag checks=-index,-assert
+//@   check handed-over-buffer-is-given-up: len(_entries) == 0 && (isnil(_entries) || !aliases(_entries, old(_entries)))
